@@ -921,10 +921,12 @@ impl StoryState {
         path: &Path,
         incrementing_turn_index: bool,
     ) -> Result<(), StoryError> {
+        // Resolve first: an unknown path must be refused before anything is changed.
+        let mut new_pointer = Story::pointer_at_path(&self.main_content_container, path)?;
+
         // Changing direction, assume we need to clear current set of choices
         self.current_flow.current_choices.clear();
 
-        let mut new_pointer = Story::pointer_at_path(&self.main_content_container, path)?;
         if !new_pointer.is_null() && new_pointer.index == -1 {
             new_pointer.index = 0;
         }
